@@ -1045,6 +1045,12 @@ def c08(ctx):
                 b"a@test.com", b"a@localhost.com", b"a@invalid.org", b"a@onion.net", b"a@example.biz", b"a@contest.ru", b"a@x-example.com"]
     lcs = ctx.spec(["sT %s" % hx(x.rsplit(b".", 1)[-1]) for x in lc_addrs])
     listed_cls = {hx(x): sl.split(" ")[1] for x, sl in zip(lc_addrs, lcs) if sl.split(" ")[1] not in ("-26",)}
+    # ... and domains whose only separators are IDNA's other full stops: mode 6531 classifies them by the A-label of their last label
+    idot_addrs = [x for x in addrs if any(sep_.encode() in x for sep_ in ("\u3002", "\uff0e", "\uff61")) and b"example" not in x and b"test" not in x]
+    def _lastA(x):
+        lab = re.split("[.\u3002\uff0e\uff61]", x.decode())[-1]
+        return lab.encode() if all(ord(ch_) < 128 for ch_ in lab) else b"xn--" + lab.encode("punycode")
+    idot_cls = {hx(x): sl.split(" ")[1] for x, sl in zip(idot_addrs, ctx.spec(["sT %s" % hx(_lastA(x)) for x in idot_addrs]))}
     addrs = list(dict.fromkeys(addrs + lc_addrs))
     masks = range(0, 2048, 1 if ctx.tier != "quick" else 37)
     for m in MODES:
@@ -1060,6 +1066,8 @@ def c08(ctx):
                 k = int(k)
                 if t == 1 and 1 <= rc <= 9 and (f[1] == "1") != bool(k & (1 << (rc + 1))):
                     ctx.S("address accepted/refused against its class bit", op=op, impl=cl)
+                if t == 1 and m == 6531 and a in idot_cls and rc != -2 and str(rc) != idot_cls[a]:
+                    ctx.S("mode 6531: a domain written with IDNA's other label separators is not classified by the A-label of its last label (so no class bit governs it)", op=op, impl=cl, table_class=idot_cls[a])
                 if t == 1 and a in listed_cls and rc != -2 and str(rc) != listed_cls[a]:
                     ctx.S("a listed TLD (any letter case) is not given its class, so its bit cannot govern it", op=op, impl=cl, table_class=listed_cls[a])
                 if t == 1 and bytes.fromhex(a) in resv_addrs and rc != 8:
@@ -1218,6 +1226,8 @@ def c12(ctx):
     rooted = [b"user@example.com.", b"user@host.test.", b"user@a.invalid.", b"user@b.com.", b"user@b.zz.", b"user@localhost.", b"user@x.example.org.", b"user@mail.b.museum.",
               b"user@EXAMPLE.NET.", b"user@a.b.c.onion.", b"user@com.", b"user@b.com.."]
     plain += rooted
+    # local parts that contain an '@' themselves (the split is at the LAST one), with dots and blanks next to the inner '@'
+    plain += [b"first.@last@example.org", b"a.@b@c.com", b".@a@b.com", b"a@.b@c.com", b"a.@@b.com", b"a..@b@c.com", b"a@b.@c.com", b"a@@b.com", b"a.b@c.d@e.com", b"a\t@b@c.com", b"a @b@c.com"]
     plain = list(dict.fromkeys(plain))
     # the same comparison in an EAV_EXTRA build (its extra code sits between the domain test and the TLD test)
     if "extra" in ctx.drives:
